@@ -418,6 +418,25 @@ def gen_edit_pair(rng, cfg, with_ops=True):
         feats.add('observers_before_compare')
     return Case('pair', {'a': a, 'b': b, 'relaxed': False, 'law': None, 'opsa': opsa, 'opsb': opsb}, feats)
 
+def gen_first_observer_pair(rng):
+    """identical trees with a CachedSource over map-carrying leaves, observed in a different ORDER on
+    the two sides: one side fills the cache by streaming, the other by map() (or not at all) - equal
+    values must answer alike whichever path filled their caches"""
+    cfg = gen_tree.Cfg(ascii=True, sms=0.6, cached=0.0, replace=0.0, warm=0.0, names=0.5)
+    g = gen_tree.Gen(rng, cfg)
+    inner = g.leaf() if rng.random() < 0.5 else g.node(1)
+    a = ('cached', 1, inner)
+    if rng.random() < 0.4:
+        a = ('concat', 'new', [(False, a), (False, g.leaf())])
+    b = renumber(copy.deepcopy(a), 1000)
+    streams, maps = ['s10', 's00', 's11', 's01'], ['m1', 'm0']
+    opsa = [rng.choice(streams)] + (gen_hops(rng, 5)[:2] if rng.random() < 0.5 else [])
+    opsb = ([rng.choice(maps)] if rng.random() < 0.6 else []) + (gen_hops(rng, 5)[:2] if rng.random() < 0.3 else [])
+    if rng.random() < 0.5:
+        opsa, opsb = opsb, opsa
+    feats = {'edit_identical', 'nontrivial', 'observers_before_compare', 'first_observer_differs'} | gen_tree.kinds_of(a, set())
+    return Case('pair', {'a': a, 'b': b, 'relaxed': False, 'law': None, 'opsa': opsa, 'opsb': opsb}, feats)
+
 U64 = re.compile(r'u64:\d+')
 def mask_u64(kvs):
     return {k: U64.sub('u64:*', v) if isinstance(v, str) else v for k, v in kvs.items()}
